@@ -16,9 +16,9 @@ from aiocoap.numbers import codes
 PROP = "C09"
 LEVEL = "model_checking"
 RULE = ("E1: complete product handler outcome (return with/without code/payload, every ConstructionRenderableError subclass "
-        "with/without text, foreign exceptions incl. unprintable ones, wrong return types, failing error renderers) x {fast, slow} x 7 methods x "
+        "with/without text, foreign exceptions incl. unprintable ones, wrong return types, messages that cannot be serialised, failing error renderers) x {fast, slow} x 7 methods x "
         "{CON, NON} on a known path, plus unknown path / unimplemented method / no site; and isolation runs (failing request "
-        "before/during/after neighbours, same or other peer) compared with the run without it; states = distinct (cell, wire outcome)")
+        "before/during/after neighbours, same or other peer) compared with the run without it, the failing request itself still getting its one final response; states = distinct (cell, wire outcome)")
 ASSUMPTIONS = [
     "the peer ACKs separate CON responses at once (retransmission behaviour is C03's subject)",
     "expected codes are written from the statement: default success 2.05 (GET/FETCH), 2.02 (DELETE), 2.04 (others)",
